@@ -63,9 +63,15 @@ let op_rl_relay a =
 
 let op_rl_conn a =
   let id = num a "e" 0 in
+  let mirror =
+    if num a "mirror" 0 <> 0 then begin
+      let r1 = rl_replay rl_topo0 (z_of_int !now) (rl_get id) !rl_state in
+      rl_state := rl_feed_acks (z_of_int id) r1.rl_rr_out r1.rl_rr_st;
+      " mirror=" ^ rl_items r1.rl_rr_out end
+    else "" in
   let r = rl_replay rl_topo0 (z_of_int !now) (rl_get id) !rl_state in
   rl_state := r.rl_rr_st;
-  emit (Printf.sprintf "rl_conn e=%d out=%s%s" id (rl_items r.rl_rr_out) (if r.rl_rr_done then "" else " NOTDONE"))
+  emit (Printf.sprintf "rl_conn e=%d%s out=%s%s" id mirror (rl_items r.rl_rr_out) (if r.rl_rr_done then "" else " NOTDONE"))
 
 let op_rl_disc a =
   let st = !rl_state in
@@ -149,7 +155,8 @@ let oracle_c12_case script trace =
         else if not !damaged then begin
           let log = List.map rl_digest_entry (rl_log_entries !main) in
           if not (rl_or_replay rl_topo0 ep.rl_ep_zone ep.rl_ep_pos log delivered) then
-            fail (Printf.sprintf "replay-mismatch e=%d pos=%d got=%s" id pos (String.concat "," msgs)) end
+            fail (Printf.sprintf "%s e=%d pos=%d got=%s" (if num a "mirror" 0 <> 0 then "replay-setlogposition-acks-wrong-log" else "replay-mismatch")
+                    id pos (String.concat "," msgs)) end
         else begin
           let log = List.map rl_digest_entry (rl_log_entries !intact) in
           if not (rl_or_damaged rl_topo0 ep.rl_ep_zone ep.rl_ep_pos log delivered) then begin
